@@ -30,6 +30,10 @@ func VH_C03_Step(p []int) {
 		free = cfg.cap - 1 - n
 	}
 	model := pre.model
+	if len(p) > 4 && p[4] == 1 {
+		// the limit must hold on the policy-guarded append path as well
+		pre.s.SetPushPolicy(func(...any) error { return nil })
+	}
 	switch p[3] {
 	case 0:
 		vals := make([]any, m)
